@@ -480,7 +480,7 @@ fn one_value(v: Vec<u8>) -> LinkedList<Vec<u8>> {
     l
 }
 
-//@ props=C01 tier=quick timeout=900 mem=4 cap=2
+//@ props=C01,C02 tier=quick timeout=900 mem=4 cap=2
 //@ functions=Packet::to_bytes_internal, Packet::set_token, Header::set_version, Header::set_type, Header::to_raw, HeaderRaw::serialize_into
 //@ bounds=version 0..3 and type set in both orders, code: all 256, message id: all 65536, token: length 0..8 with symbolic bytes; no options, no payload
 //@ what=bytes = [Ver<<6|T<<4|TKL, code, id_hi, id_lo, token...] exactly
@@ -625,14 +625,14 @@ macro_rules! c01_one_option_length {
     };
 }
 
-//@ props=C01 tier=quick timeout=1200 mem=4 cap=2 name=c01_one_option_num_l1
+//@ props=C01,C02 tier=quick timeout=1200 mem=4 cap=2 name=c01_one_option_num_l1
 //@ functions=Packet::to_bytes_internal (option header: delta nibble and extended delta)
 //@ bounds=one option: number = every u16 (first option: delta = number, incl. 258 and the gap 256..268), value of 1 symbolic byte; message id symbolic
 //@ what=option header bytes equal the RFC 7252 section 3.1 reference encoding of (delta, length); value follows; total length exact
 //@ assumes=the entry is placed in slot 0 of the array model (sorting is std's job)
 c01_one_option_num!(c01_one_option_num_l1, 1);
 
-//@ props=C01 tier=quick timeout=1200 mem=4 cap=2 name=c01_one_option_num_l13
+//@ props=C01,C02 tier=quick timeout=1200 mem=4 cap=2 name=c01_one_option_num_l13
 //@ functions=Packet::to_bytes_internal
 //@ bounds=as c01_one_option_num_l1 with a value of 13 bytes (extended delta and extended length in one header)
 //@ what=as c01_one_option_num_l1
@@ -668,7 +668,7 @@ c01_one_option_length!(c01_one_option_len_11, 11);
 //@ what=as c01_one_option_num_l1
 c01_one_option_length!(c01_one_option_len_2000, 2000);
 
-//@ props=C01 tier=quick timeout=1800 mem=7 cap=3
+//@ props=C01,C02 tier=quick timeout=1800 mem=7 cap=3
 //@ functions=Packet::to_bytes_internal (running delta)
 //@ bounds=two options in slots 0 and 1 with symbolic numbers n1 < n2 (every pair), one symbolic value byte each; message id symbolic
 //@ what=first header encodes n1, second encodes n2 - n1; values in place; total length exact
